@@ -18,7 +18,9 @@ PoolSeq == << [n |-> "1", u |-> Unit0], [n |-> "m", u |-> U1("m")], [n |-> "cm",
               [n |-> "erg", u |-> U1("erg")], [n |-> "J", u |-> U1("J")], [n |-> "K", u |-> U1("K")],
               [n |-> "au", u |-> U1("au")], [n |-> "pc", u |-> U1("pc")], [n |-> "M_sun", u |-> U1("M_sun")], [n |-> "yr", u |-> U1("yr")],
               [n |-> "L_sun", u |-> U1("L_sun")], [n |-> "W", u |-> U1("W")], [n |-> "m2", u |-> UPow(U1("m"), 2)], [n |-> "cm3", u |-> UCm3],
-              [n |-> "m/cm", u |-> UDiv(U1("m"), U1("cm"))] >>       \* a scaled dimensionless unit (= 100)
+              [n |-> "m/cm", u |-> UDiv(U1("m"), U1("cm"))],         \* a scaled dimensionless unit (= 100)
+              \* volumes whose CGS values (3e55, 3e39) lie outside the float32 range while their ratio (9e15) does not
+              [n |-> "pc3", u |-> UPow(U1("pc"), 3)], [n |-> "au3", u |-> UPow(U1("au"), 3)] >>
 NPool == Len(PoolSeq)
 PU(i) == PoolSeq[i].u
 PN(i) == PoolSeq[i].n
@@ -95,7 +97,7 @@ Pred2 == {"less", "less_equal", "greater", "greater_equal", "equal", "not_equal"
 Trans1 == {"sqrt", "square", "cbrt", "reciprocal", "power_int2", "power_nd2", "power_nd3", "power_q2", "power_a3", "power_s2"}        \* np.power with a Python int / 0-d ndarray exponent
 Trans2 == {"multiply", "divide", "true_divide"}
 NpOutcome(c) ==
-  LET u == PU(c.lu)  v == IF c.rk = "arr" THEN PU(c.ru) ELSE Unit0 IN
+  LET u == PU(c.lu)  v == IF c.rk \in {"arr", "qty"} THEN PU(c.ru) ELSE Unit0 IN
   CASE c.f \in Keep1 -> [raises |-> FALSE, unit |-> Sparse(u), bool |-> FALSE]
     [] c.f \in Pred1 -> [raises |-> FALSE, unit |-> Sparse(Unit0), bool |-> TRUE]
     [] c.f = "sqrt" -> IF URootOk(u, 2) THEN [raises |-> FALSE, unit |-> Sparse(URoot(u, 2)), bool |-> FALSE] ELSE [raises |-> FALSE, unit |-> <<"fractional">>, bool |-> FALSE]
